@@ -146,18 +146,18 @@ void VersionedMap<KeyT, ValueT>::applyRevision(uint32_t revision)
     std::vector<uint32_t> ordered;
     auto it = reverts_.find(revision);
     while (it != reverts_.end()) {
-        ordered.push_back(it->second);
+        ordered.push_back(it->first);
         it = reverts_.find(it->second);
     }
 
     curRevision_ = revision;
-    if (ordered.empty())
+    if (ordered.empty() && revision != 0)
         return; // Nothing to do.
 
     std::reverse(ordered.begin(), ordered.end());
     map_.clear();
     for (auto current : ordered) {
-        const auto& command = commands_[current];
+        const auto& command = commands_[current - 1];
         ValueT value = command.value_;
         if (command.opCode_ == Command::Insert)
             insertOrAssign_CORE(command.key_, std::move(value));
